@@ -546,4 +546,25 @@ theorem getInstanceData_ok_iff {e : Elem} {s s' : St} {i o : Option GridId} {w :
     rw [h]
 
 
+/-! ### Objects with hidden state, generically -/
+
+/-- Calls on one shared object, threading its hidden state. -/
+def runObj {σ X Y : Type} (call : σ → X → σ × Y) : σ → List X → List Y
+  | _, [] => []
+  | s, x :: xs => (call s x).2 :: runObj call (call s x).1 xs
+
+/-- History independence of an object with hidden state: if some invariant `Ok` is kept by every call
+and under it a call answers what a fresh object answers, then every history is answered call by call
+as by fresh objects.  (Helper; used for the zoom FFT.) -/
+theorem hidden_state_history_transparent {σ X Y : Type} (call : σ → X → σ × Y) (Ok : σ → Prop)
+    (fresh : σ) (h : ∀ s x, Ok s → Ok (call s x).1 ∧ (call s x).2 = (call fresh x).2) (xs : List X) :
+    ∀ s, Ok s → runObj call s xs = xs.map (fun x => (call fresh x).2) := by
+  induction xs with
+  | nil => intro s _; rfl
+  | cons x xs ih =>
+    intro s hs
+    obtain ⟨h1, h2⟩ := h s x hs
+    simp only [runObj, List.map_cons]
+    rw [h2, ih _ h1]
+
 end HcipyVerif.Cache
